@@ -113,6 +113,9 @@ def run(ctx, rep):
         okr = False
         if len(inl) == 1 and inl[0].kind == "ret":
             conds = [(a, p) for a, p in inl[0].cond if a[0] != "inloop"]
+            if len(conds) == 1 and not conds[0][1] and conds[0][0][0] == "cmp" and conds[0][0][1] == "is" and ("const", None) in conds[0][0][2:]:
+                other = conds[0][0][3] if conds[0][0][2] == ("const", None) else conds[0][0][2]
+                conds = [(other, True)]  # `m is None` false  ==  m truthy
             bm = match(Mp, conds[0][0]) if len(conds) == 1 and conds[0][1] else None
             if bm is not None and bm["method"] in ("match", "fullmatch", "search"):
                 method = bm["method"]
@@ -200,6 +203,19 @@ def run(ctx, rep):
             kw = dict(c.kwargs)
             g = ctx.prog.functions.get(c.fn[1])
             a = kw.get(g.params()[0])
+            if a is not None and a[0] == "elem" and a[1] in s.loops and c.loops == (a[1],):
+                # the setter is called for every element of a constant list of names
+                try:
+                    names_ = ctx.fold.fold(s.loops[a[1]].iter)
+                except NotConstant as e:
+                    names_ = None
+                    fail(ra, ctx, f, c.node, f"setter called in a loop over a list of names that does not fold to constants: {e}")
+                extra_c = [(x, p_) for x, p_ in c.cond if x[0] != "inloop"]
+                if extra_c:
+                    fail(ra, ctx, f, c.node, "fields are only looked for under a condition")
+                for nm in (names_ or []):
+                    called.setdefault(nm, []).append((c.fn[1], c))
+                continue
             if a is not None and a[0] == "const":
                 called.setdefault(a[1], []).append((c.fn[1], c))
                 if c.cond:
